@@ -169,12 +169,26 @@ class Model(object):
                 else:
                     self.acc_keys.add(k)
 
+    @property
+    def gvar(self):
+        """The term that stands for the index of the group being tested: the element of `0..n`, or the position in a
+        traversal of one of the per-stage tables."""
+        G = self.group
+        return G.elem if Q.range_of(G) is not None else ("index_of", G.id)
+
     def fc_operand(self, t):
         """[(role, index terms)] for the collections a check_intersection operand ranges over."""
         ev = self.fc_ev
+        G = self.group
         out = []
         for lf in Q.leaves(ev, t):
             fields, idx, base = Q.table_access(ev, lf)
+            if base == G.elem and Q.range_of(G) is None and G.source is not None and not fields:
+                # the element of a traversal of table[stage] is table[stage][its position]
+                f2, i2, b2 = Q.table_access(ev, G.source)
+                if not Q.crate_fields(f2):
+                    idx = i2 + [("index_of", G.id)] + idx
+                    base = b2
             if base[0] == "param":
                 out.append((self.fc_role.get(base[1], "OTHER"), idx))
             else:
@@ -222,7 +236,7 @@ def matrix(ctx, report, rule, facts, config, want=("matrix", "exact", "dephit", 
                         atomic.add(pair)
             for (r, idx) in x + y:
                 if r.startswith("ACC"):
-                    if not (len(idx) == 2 and len(stage_par) == 1 and Q.strip(ev, idx[0]) == ("param", stage_par[0]) and Q.strip(ev, idx[1]) == G.elem):
+                    if not (len(idx) == 2 and len(stage_par) == 1 and Q.strip(ev, idx[0]) == ("param", stage_par[0]) and Q.strip(ev, idx[1]) == m.gvar):
                         slot_problems.append("an operand from the %s table is indexed by %s (expected [stage][group] of the group being tested)" % (r, [Q.strip(ev, i)[:2] for i in idx]))
     expected = set([("NEW-W", "ACC-W"), ("NEW-W", "ACC-R"), ("NEW-R", "ACC-W")])
     if "matrix" in want:
@@ -256,7 +270,7 @@ def matrix(ctx, report, rule, facts, config, want=("matrix", "exact", "dephit", 
         any_dep = any(vals.get(c) == 1 for c in dep_conds)
         unknown = [ct for (ct, cv, cn, cs) in it.conds if ct not in info and ct[0] in ("call", "bin", "un")]
         counted = [k for k in m.acc_keys if it.updates.get(k) != ("lvar", G.id, k)]
-        well = all(Q.is_call(ev, it.updates[k], "add") and tuple(Q.strip(ev, a) for a in it.updates[k][2]) == (("lvar", G.id, k), G.elem) for k in counted)
+        well = all(Q.is_call(ev, it.updates[k], "add") and tuple(Q.strip(ev, a) for a in it.updates[k][2]) == (("lvar", G.id, k), m.gvar) for k in counted)
         flagged = [k for k in m.flag_keys if it.updates.get(k) == ("int", 1)
                    or (it.updates.get(k) == ("lvar", G.id, k) and it.path.value(("lvar", G.id, k)) == 1)]   # already set, left set
         cleared = [k for k in m.flag_keys if it.updates.get(k) == ("int", 0)]
@@ -338,7 +352,18 @@ def allgroups(ctx, report, rule, facts, config):
     problems = []
     rng = Q.range_of(G)
     if rng is None:
-        problems.append("the groups are not scanned as a forward integer range (%s)" % (G.source[:3] if G.source else None,))
+        # `for (group, ids) in ids[stage].iter().enumerate()`: every group of the stage, front to back, through one of the
+        # per-stage tables (which grow in lockstep: C04.LOCKSTEP)
+        from .semcov import _term_class
+        from .shapes import iter_type_class
+        okt = False
+        if G.kind == "for" and G.source is not None:
+            fields, idx, base = Q.table_access(ev, G.source)
+            cls = iter_type_class(G.iter_ty) if G.iter_ty else _term_class(ev, G.source)
+            okt = (not Q.crate_fields(fields) and base[0] == "param" and str(m.fc_role.get(base[1], "")).startswith("ACC-") and len(idx) == 1
+                   and Q.strip(ev, idx[0])[0] == "param" and m.fc_role.get(Q.strip(ev, idx[0])[1]) == "STAGE" and cls == "full")
+        if not okt:
+            problems.append("the groups are scanned neither as 0..ids[stage].len() nor by a full forward traversal of a per-stage table (%s)" % (G.source[:3] if G.source else None,))
     else:
         lo, hi = rng
         okr = lo == ("int", 0)
